@@ -16,6 +16,7 @@ package services
 import (
 	"context"
 	"fmt"
+	"io"
 	"net"
 
 	"github.com/honeytrap/honeytrap/director"
@@ -103,7 +104,23 @@ func (s *dnsProxy) Handle(ctx context.Context, conn net.Conn) error {
 
 		return err
 	} else if _, ok := conn.LocalAddr().(*net.TCPAddr); ok {
-		n, err := conn.Read(buff[:])
+		// DNS over a stream: every message is preceded by its two-byte length (RFC 1035
+		// 4.2.2).  Read exactly one message, however the stream is cut into segments.
+		readMsg := func(c net.Conn) (int, error) {
+			var lb [2]byte
+			if _, err := io.ReadFull(c, lb[:]); err != nil {
+				return 0, err
+			}
+			n := int(lb[0])<<8 | int(lb[1])
+			_, err := io.ReadFull(c, buff[:n])
+			return n, err
+		}
+		writeMsg := func(c net.Conn, n int) error {
+			_, err := c.Write(append([]byte{byte(n >> 8), byte(n)}, buff[:n]...))
+			return err
+		}
+
+		n, err := readMsg(conn)
 		if err != nil {
 			return err
 		}
@@ -133,19 +150,15 @@ func (s *dnsProxy) Handle(ctx context.Context, conn net.Conn) error {
 
 		defer conn2.Close()
 
-		if _, err = conn2.Write(buff[:n]); err != nil {
+		if err = writeMsg(conn2, n); err != nil {
 			return err
 		}
 
-		if n, err = conn2.Read(buff[:]); err != nil {
+		if n, err = readMsg(conn2); err != nil {
 			return err
 		}
 
-		if _, err = conn.Write(buff[:n]); err != nil {
-			return err
-		}
-
-		return nil
+		return writeMsg(conn, n)
 	} else {
 		return nil
 	}
